@@ -26,8 +26,14 @@ FACTS = ["gen_guard_locks_then_unlocks", "gen_sites_ok", "gen_skeleton_ok", "gen
          "gen_orders_sufficient"]
 
 
+_regen_done = [False]
+
+
 def regen(c):
-    """translator -> coq/Gen/QsOrders.v"""
+    """translator -> coq/Gen/QsOrders.v (once per process)"""
+    if _regen_done[0]:
+        return True
+    _regen_done[0] = True
     p = subprocess.run([sys.executable, os.path.join(vlib.ROOT, "translator", "gen_qs.py")], capture_output=True, text=True,
                        env=dict(os.environ, VERIF_REPO=vlib.REPO), timeout=300)
     c.gen_obligation("translator/gen_qs.py recognises qs.hpp", p.returncode == 0, p.stderr[-300:])
@@ -80,30 +86,62 @@ def run(c):
             c.gen_obligation(f, facts.get(f) == "true", "(source-derived fact evaluates to %s)" % facts.get(f))
     cases = make_cases(c)
     stress = [(cid, ls) for cid, ls in cases if "stress" in ls[0]]
-    for cid, ls in cases:
-        kind = "stress" if "stress" in ls[0] else "lockstep"
-        c.count("qs_cases_" + kind)
-        c.count("qs_agents_%s" % ls[0].split()[1])
-        c.count("qs_ops", len(ls) - 1)
-        for l in ls[1:]:
-            c.count("qs_op_" + l.split()[0])
-        if cid.startswith("x"):
-            c.count("qs_cases_exhaustive")
     # shorter sanitizer reports, so that their first line survives vlib's 6000-character tail
     env = {"ASAN_OPTIONS": vlib.SAN_ENV["ASAN_OPTIONS"] + ":print_legend=0:malloc_context_size=3:stack_trace_format='#%n %s:%l'",
            "TSAN_OPTIONS": vlib.SAN_ENV["TSAN_OPTIONS"] + ":stack_trace_format='#%n %s:%l'"}
-    impl = vlib.run_cases(har, cases, timeout=900, env=env)
-    model = vlib.run_cases(drv, cases) if okd else {}
-    for cid, ls in cases:
-        ri = impl.get(cid)
-        if ri and "stress" not in ls[0]:
-            if any(l.startswith("assert") for l in ri["lines"]):
-                c.count("qs_cases_ending_in_assert")
-            if any(re.search(r"\| c \d", l) for l in ri["lines"]):
-                c.count("qs_cases_with_callback")
-            if any(re.search(r"\| \d+ 1 \[", l) for l in ri["lines"]):
-                c.count("qs_cases_with_deferred_period")
-    c.compare(cases, impl, model, interesting)
+    # phase 1: corpus + a sample; phase 2 (the bulk) only if phase 1 found nothing -- on a tree where calls hang, every
+    # hanging case costs a watchdog period
+    first = [x for x in cases if x[0].startswith("corpus")] + [x for x in cases if not x[0].startswith("corpus")][:250]
+    rest = [x for x in cases if x not in first]
+    for batch in (first, rest):
+        if not batch:
+            continue
+        for cid, ls in batch:
+            kind = "stress" if "stress" in ls[0] else "lockstep"
+            c.count("qs_cases_" + kind)
+            c.count("qs_agents_%s" % ls[0].split()[1])
+            c.count("qs_ops", len(ls) - 1)
+            for l in ls[1:]:
+                c.count("qs_op_" + l.split()[0])
+            if cid.startswith("x"):
+                c.count("qs_cases_exhaustive")
+        impl = vlib.run_cases(har, batch, timeout=900, env=env)
+        model = vlib.run_cases(drv, batch) if okd else {}
+        for cid, ls in batch:
+            ri = impl.get(cid)
+            if ri and "stress" not in ls[0]:
+                if any(l.startswith("assert") for l in ri["lines"]):
+                    c.count("qs_cases_ending_in_assert")
+                if any(re.search(r"\| c \d", l) for l in ri["lines"]):
+                    c.count("qs_cases_with_callback")
+                if any(re.search(r"\| \d+ 1 \[", l) for l in ri["lines"]):
+                    c.count("qs_cases_with_deferred_period")
+        c.compare(batch, impl, model, interesting)
+        known = vlib.known_findings(c.pid)
+        new_fail = [f for f in c.oracle_fail if not any(k["rx"].search(f[0] + " " + f[1]) for k in known)]
+        if new_fail or c.mismatches:
+            if batch is first and rest:
+                c.notes.append("phase 1 (corpus + 250 cases) already failed; the remaining %d cases were not run." % len(rest))
+            break
+    # model-only cases: exhaustive exploration of the fine-grained model (statements + invariants in every state) and
+    # the randomised vector-clock check of the C11_hb statement
+    if okd and not c.replay:
+        mcases = gen.model_cases(c.rng, c.tier == "quick")
+        mres = vlib.run_cases(drv, mcases, timeout=1200)
+        for cid, ls in mcases:
+            r = mres.get(cid) or {"lines": [], "crash": "no output"}
+            if r.get("crash"):
+                c.broken.append("model case %s crashed: %s" % (cid, str(r["crash"])[-200:]))
+            for l in r["lines"]:
+                w = l.split()
+                if l.startswith("explored"):
+                    c.count("qs_fg_states_explored", int(w[1])); c.count("qs_fg_script_sets_explored")
+                elif l.startswith("hb schedules"):
+                    c.count("qs_hb_schedules", int(w[2])); c.count("qs_hb_callbacks_checked", int(w[4]))
+                elif l.startswith("!FG"):
+                    c.broken.append("fine-grained model exploration (%s: %s): %s" % (cid, "; ".join(ls[1:]), l[4:]))
+                elif l.startswith("!HB"):
+                    c.broken.append("vector-clock model, statement of C11_hb (%s: %s): %s" % (cid, "; ".join(ls[1:]), l[4:]))
     # the same stress cases under TSan
     tcases = [("tsan-" + cid, ls) for cid, ls in stress]
     if tcases:
